@@ -503,6 +503,14 @@ def mutants(rng, m0, limit=4):
     # R11
     add("directive-hook-not-awaitable", "a directive implementation with a synchronous hook",
         lambda m: m["dirdefs"][0].update(awaitable=False))
+    for style, what in (("wrapped", "a synchronous functools.wraps wrapper around an async def"),
+                        ("callable_object", "a callable object whose __call__ is synchronous"),
+                        ("post_bake", "a synchronous on_post_bake"),
+                        ("argument_execution", "a synchronous on_argument_execution"),
+                        ("lambda", "a lambda"),
+                        ("subscription_not_generator", "on_schema_subscription that is a coroutine, not an async generator")):
+        add("directive-hook-not-awaitable", "a directive implementation whose hook is " + what,
+            lambda m, style=style: m["dirdefs"][rng.randrange(len(m["dirdefs"]))].update(awaitable=False, hook_style=style))
     # R12 syntax
     add("syntax", "unbalanced brace", lambda m: m.__setitem__("text_mutation", lambda t: t.replace("{", "{ {", 1)))
     add("syntax", "garbage token", lambda m: m.__setitem__("text_mutation", lambda t: t + "\n%%% not sdl\n"))
